@@ -1800,9 +1800,8 @@ impl BlockRanges {
 //@ascribe "let mut left_len = 0;" => "let mut left_len: u64 = 0;"
 //@hint after "let len = self.len();"
         proof { lemma_seq_len_bound(self.0@); }
-//@sub E1 ".insert_relaxed(range.to_owned())" all => ".insert_relaxed(range)"
-//@sub E1 "left.insert_relaxed(left_range)" => "left.insert_relaxed(&left_range)"
-//@sub E1 ".insert_relaxed(left_end + 1..=end)" => ".insert_relaxed(&(left_end + 1..=end))"
+//@sub E9 "range.to_owned()" all => "vx_clone(range)"
+//@refarg insert_relaxed
 //@hint before "for range in self.0.iter() {"
         proof {
             broadcast use vstd::iset::group_iset_lemmas;
@@ -1855,6 +1854,18 @@ impl BlockRanges {
         proof {
             lemma_part_final(self.0@, lf, rf, left_len as int, middle as int, left@, right@, middle_height as int, left_len < rf.len());
         }
+//@end
+
+//@fn impl TryFrom<RangeInclusive<u64>> for BlockRanges :: try_from
+//@props C17
+    pub fn try_from__range(value: BlockRange) -> (res: Result<BlockRanges>)
+        requires !value@.exhausted
+        ensures
+            res.is_ok() == r_valid(value),
+            res.is_ok() ==> res.unwrap().wf() && res.unwrap()@ == r_set(value),
+//@sub E1 "ranges.insert_relaxed(value)?" => "ranges.insert_relaxed(&value)?"
+//@hint before "Ok(ranges)"
+        proof { assert(ranges@ =~= r_set(value)); }
 //@end
 
 } // impl BlockRanges
